@@ -1026,11 +1026,17 @@ val marker_circle : string -> string -> node
 
 val defs_node : node
 
+val canvas_of : settings -> cell -> q * q
+
 val canvas_size : settings -> (cell * z) list -> q * q
 
 val backdrop_node : q -> q -> node
 
 val fragments_of : cellbuffer -> (fragment list * fragment list list) res
+
+val doc_emit :
+  fragment list -> fragment list list -> z list -> settings -> q -> q -> node
+  res
 
 val doc_of : cellbuffer -> settings -> q -> q -> node res
 
@@ -1095,5 +1101,11 @@ val op_frags : bool -> z list -> z list res
 val op_behav : z list -> z list res
 
 val op_svg : z -> settings -> q -> q -> z list -> z list res
+
+val op_endorse : bool -> (cell * z) list -> z list
+
+val op_emit :
+  z -> settings -> q -> q -> fragment list -> fragment list list -> (cell * z
+  list) list -> z list -> cell -> z list
 
 val run_op : z -> settings -> q -> q -> z list -> z list
